@@ -138,16 +138,18 @@ def validate_trace(module, trace, wd, name, timeout=1200, mx="6g", parallel=1, c
     """Trace validation: returns (n_events, fails, res) where fails = [[l, ev, tag, ...], ...].
     parallel > 1 (only for families whose events are independent cases): the trace is cut into
     contiguous chunks validated by concurrent TLC processes; indices are mapped back."""
-    if parallel <= 1:
-        return _validate_one(module, trace, wd, name, timeout, mx)
     lines = read_events(trace)
-    if len(lines) < 2 * parallel:
+    MAXB = 60000     # TLC cannot handle behaviours of 65536 or more states: a chunk is one behaviour
+    if len(lines) > MAXB:
+        parallel = max(parallel, 2)
+    if parallel <= 1 or len(lines) < 2 * parallel:
         return _validate_one(module, trace, wd, name, timeout, mx)
     total = sum(len(x) for x in lines)
     chunks, cur, size, start = [], [], 0, 0
     for i, ln in enumerate(lines):
         cur.append(ln); size += len(ln)
-        if size >= total / parallel and len(chunks) < parallel - 1 and (not cuts or '"cut":true' in ln):
+        can_cut = (not cuts) or '"cut":true' in ln
+        if can_cut and ((size >= total / parallel and len(chunks) < parallel - 1) or len(cur) >= MAXB * 2 // 3):
             chunks.append((start, cur)); start = i + 1; cur = []; size = 0
     if cur:
         chunks.append((start, cur))
@@ -161,6 +163,8 @@ def validate_trace(module, trace, wd, name, timeout=1200, mx="6g", parallel=1, c
         os.remove(p)
         return off, n, fails, res
     n_all, fails_all, last = 0, [], None
+    if any(len(c[1]) > MAXB for c in chunks):
+        raise ToolError(f"trace validation {name}: a trace segment without cut point has more than {MAXB} events")
     with concurrent.futures.ThreadPoolExecutor(max_workers=parallel) as ex:
         for off, n, fails, res in ex.map(work, range(len(chunks))):
             n_all += n
